@@ -272,7 +272,14 @@ class ContentSpec(BfsSpec):
             if len(idxs) != 1:
                 raise engine.HarnessError("two entries share a start beat")
             others_before = snapshot(bar)
+            # another bar with an entry on that very beat exists (created just now): only *this* bar is addressed
+            decoy = Bar("G", self.meter)
+            for e in bar.bar[:(i % len(bar.bar)) + 1]:
+                decoy.place_notes(NoteContainer(["C-2"]), e[1])
+            decoy_before = snapshot(decoy)
             bar.place_notes_at(content, at)
+            if check and snapshot(decoy) != decoy_before:
+                S.problem("place_notes_at on one bar changed another bar holding an entry on the same beat", decoy_before, snapshot(decoy))
             ref.entries[i][3] = merge_notes(ref.entries[i][3], expect)
             if check:
                 self._only_entry_changed(S, others_before, snapshot(bar), i, "place_notes_at(%s, beat of entry %d)" % (act[2], i))
